@@ -215,7 +215,16 @@ def rule_input_independence(prog, fixture=False):
                 p = fn.parent(n)
                 while p is not None and p.get("k") in ("ImplicitCastExpr", "ParenExpr"):
                     p = fn.parent(p)
-                # allowed: `f = stdin;`
+                # allowed: `f = stdin;`, `FILE *f = stdin;`, and stdin as an arm of `c ? stdin : fopen(..)`
+                # whose value is stored the same way
+                node = n
+                while p is not None and p.get("k") == "ConditionalOperator" and \
+                        any(any(y is node for y in walk(arm)) for arm in p["c"][1:]):
+                    node = p
+                    p = fn.parent(p)
+                    while p is not None and p.get("k") in ("ImplicitCastExpr", "ParenExpr"):
+                        node = p
+                        p = fn.parent(p)
                 ok = p is not None and ((p.get("k") == "BinaryOperator" and p.get("op") == "=") or p.get("k") == "VarDecl")
                 r.add("%s::%s::stdin" % (fn.relfile(), fn.qn), fn.loc(n), ok,
                       "stdin is only chosen as the input stream" if ok else
